@@ -154,7 +154,7 @@ def extract(repo, config, target_dir=None, force=False, quiet=True):
     return out, info
 
 
-def extract_dep(repo, crate="levenberg_marquardt", pkg="levenberg-marquardt", quiet=True):
+def extract_dep(repo, crate="levenberg_marquardt", pkg="levenberg-marquardt", quiet=True, body_filter=""):
     """facts of a *dependency* crate as pinned by the repo's Cargo.lock (RUSTC_WRAPPER wraps every
     crate; the driver dumps only the one named in VP_CRATE). Cached by Cargo.lock + driver hash."""
     t0 = time.time()
@@ -163,6 +163,7 @@ def extract_dep(repo, crate="levenberg_marquardt", pkg="levenberg-marquardt", qu
     h.update(open(os.path.join(repo, "Cargo.lock"), "rb").read())
     h.update(open(os.path.join(repo, "Cargo.toml"), "rb").read())
     h.update(driver_sources_hash().encode())
+    h.update(body_filter.encode())
     key = h.hexdigest()[:24]
     out = os.path.join(CACHE, "facts", "dep-%s-%s.json" % (crate, key))
     os.makedirs(os.path.dirname(out), exist_ok=True)
@@ -180,7 +181,7 @@ def extract_dep(repo, crate="levenberg_marquardt", pkg="levenberg-marquardt", qu
             if os.path.exists(tmp_out):
                 os.remove(tmp_out)
             e = env_offline()
-            e.update({"VP_CONFIG": "dep", "VP_CRATE": crate, "VP_FACTS_OUT": tmp_out, "LD_LIBRARY_PATH": sysroot() + "/lib",
+            e.update({"VP_CONFIG": "dep", "VP_CRATE": crate, "VP_FACTS_OUT": tmp_out, "VP_FILTER": body_filter, "LD_LIBRARY_PATH": sysroot() + "/lib",
                       "RUSTFLAGS": "-Zmir-opt-level=0 -Awarnings", "RUSTC_WRAPPER": drv, "CARGO_TARGET_DIR": tdir, "CARGO_INCREMENTAL": "0"})
             r = subprocess.run(["cargo", "+nightly", "check", "--offline", "--locked", "--lib", "-p", "varpro"], cwd=repo, env=e,
                                stdout=subprocess.PIPE, stderr=subprocess.STDOUT, text=True)
